@@ -85,6 +85,10 @@ func c02Programs(tier string) []*Spec {
 				if done == "wait-only" && hi >= len(c02Alphabet) && tier != "thorough" {
 					continue
 				}
+				// (a history that adds twice adds two different bars: the harness keeps one handle per bar slot)
+				if len(h) == 2 && h[0].K == "add" && h[1].K == "add" {
+					h = []Op{h[0], {K: "add", B: 2}}
+				}
 				var names []string
 				for _, o := range h {
 					names = append(names, o.String())
@@ -105,7 +109,7 @@ func c02Programs(tier string) []*Spec {
 					case "wait-only":
 						// every bar must end on its own: a second client finishes them after the history
 						sp.Clients = append(sp.Clients, []Op{{K: "abort", B: 0}, {K: "abort", B: 1}})
-						sp.Clients[0] = append(sp.Clients[0], Op{K: "abort", B: 1})
+						sp.Clients[0] = append(sp.Clients[0], Op{K: "abort", B: 1}, Op{K: "abort", B: 2})
 					default:
 						sp.Clients = append(sp.Clients, []Op{{K: done}})
 					}
@@ -221,7 +225,13 @@ func init() {
 		Items: func(tier string) []Item {
 			var items []Item
 			if tier == "thorough" {
-				items = allItems("C02", c02Oracle, c02Late, "incr-write", "incr-cancel", "incr-shutdown", "incr-abortdrop")
+				var late []Op // the late battery without the Add of a third bar (the tiny programs have one bar slot)
+				for _, o := range c02Late {
+					if o.K != "add" {
+						late = append(late, o)
+					}
+				}
+				items = allItems("C02", c02Oracle, late, "incr-write", "incr-cancel", "incr-shutdown", "incr-abortdrop")
 			}
 			for _, sp := range c02Programs(tier) {
 				if sp.Q == 0 {
